@@ -265,6 +265,7 @@ RULES = [
     ("X-VARIANT", "Variant constructors, text renderings and coercion order [shared]", lambda ctx: __import__("extra").variant_constructors(ctx)),
     ("X-DATEALIKE", "unquoted date literals reach the comparison whole (lexer look-ahead) [shared]", lambda ctx: __import__("extra").looks_like_date_rule(ctx)),
     ("X-LEXCHARS", "the lexer reads the query by characters, not bytes [shared]", lambda ctx: __import__("extra2").lexer_reads_characters(ctx)),
+    ("C03-R3", "NOT BETWEEN is the complement of BETWEEN on all orderings of (x, a, b) [shared with C03]", lambda ctx: __import__("c03").r3(ctx)),
     ("C03-R8", "every outcome of a comparison is produced under the dispatch on the operator [shared with C03]", lambda ctx: __import__("extra2").comparison_is_operator_dependent(ctx)),
     ("C12-R5", "the comparison carries the operator written in the query [shared with C12]", lambda ctx: __import__("extra2").operator_is_the_lexed_one(ctx)),
     ("C04-R8", "content-derived operands (line_count, ..): the byte count of Read::read bounds the data examined [shared with C04]", lambda ctx: __import__("extra2").read_amount_used(ctx)),
